@@ -350,7 +350,8 @@ CHECKS = {
               "the property against its component-wise definition (exact). part 2 (generated): vectors built from a table "
               "of special floating-point values (+-0, denormals, huge, +-inf, NaN, near-1, perturbed) and small integers, "
               "all pairs among up to 6 vectors x 12 (scalar,dimension) combinations; tetrahedral (Vec3d and Vec3f) and "
-              "hexahedral meshes with generated positions: vector, length, barycenter(edge/face/cell), halfface normal, "
+              "hexahedral meshes and polyhedral meshes of pyramids / prisms over irregular planar 3..6-gons (vertices "
+              "lying in different numbers of faces) with generated positions: vector, length, barycenter(edge/face/cell), halfface normal, "
               "opposite normals, NormalAttrib face and vertex normals against the formulas on brute-force vertex sets. "
               "Tolerance: component-wise + - * / exact; accumulations 4 eps * sum of magnitudes; norms / normalisation 8 "
               "eps; geometry 16 eps * scale. non-trivial = a case with >=2 vectors containing a special value, or a mesh "
